@@ -528,3 +528,7 @@ package ledger
 //@     invariant lastLogID == nil ==> maxLogID == 0 - 1
 //@     invariant lastLogID != nil ==> deref(lastLogID) == maxLogID
 //@     invariant maxLogID >= old(maxLogID)
+
+//@ assumed func uuid.NewString() (r string)
+//@   ensures len(r) == 36
+//@   note google/uuid: the canonical textual form xxxxxxxx-xxxx-xxxx-xxxx-xxxxxxxxxxxx
